@@ -703,6 +703,78 @@ def run_client(frags, close_after, scheme="http", redirectable=True, cycles=None
     return (esc, resps, nev)
 
 
+def run_client_hold(frags, nreq, close_after=True):
+    """one Client, nreq queued requests, the scripted responses; the harness HOLDS every object the client hands out (the
+    response entries with their body / headers / data, the event entries) by identity, snapshots it at hand-out and compares
+    it again at the end of the history.  -> (escaped class or None, [(status, errored, body at hand-out)], all still equal?)"""
+    import copy
+    from hio.base import tyming
+    from hio.core import tcp
+    from hio.core.http import clienting
+    ha = ('127.0.0.1', 8080)
+    made = []
+
+    class Conn(tcp.Client):
+        def open(self):
+            self.accepted = False
+            self.connected = False
+            self.cutoff = False
+            fr, cl = (frags, close_after) if not made else ([], False)
+            self.cs = FakeSock(fr, cl, self.ha, ('127.0.0.1', 50000 + len(made)))
+            made.append(self.cs)
+            self.opened = True
+            return True
+
+    saved = clienting.coring.normalizeHost
+    clienting.coring.normalizeHost = scripted_resolve
+    esc = None
+    held = []       # (object, snapshot)
+    seen_r = seen_e = 0
+
+    def snap(o):
+        if isinstance(o, (bytes, bytearray)):
+            return bytes(o)
+        if hasattr(o, "items"):
+            return [(k, snap(v)) for k, v in o.items()]
+        if isinstance(o, (list, tuple)):
+            return [snap(x) for x in o]
+        return copy.deepcopy(o)
+
+    try:
+        tymist = tyming.Tymist(tock=1.0)
+        conn = Conn(ha=ha, tymth=tymist.tymen())
+        cli = clienting.Client(connector=conn, redirectable=False)
+        cli.reopen()
+        for i in range(nreq):
+            cli.request(method="GET", path="/r%d" % i)
+        for _ in range(len(frags) + 6 * nreq + 8):
+            for sck in made:
+                sck.tick()
+            try:
+                cli.service()
+            except BaseException as ex:   # noqa
+                esc = type(ex).__name__
+                break
+            rs = list(cli.responses)
+            for r in rs[seen_r:]:
+                for key in ("body", "headers", "data"):
+                    held.append((r[key], snap(r[key])))
+                held.append((r, snap({k: r[k] for k in ("status", "reason", "errored", "error")})))
+            seen_r = len(rs)
+            es = list(cli.events)
+            for e in es[seen_e:]:
+                held.append((e, snap(e)))
+            seen_e = len(es)
+            tymist.tick()
+        resps = [(r['status'], bool(r['errored'])) for r in cli.responses]
+        bodies = [sn for (o, sn), i in zip(held, range(len(held))) if isinstance(sn, bytes)]
+        stable = all(snap(o if not isinstance(o, dict) or "status" not in o else {k: o[k] for k in ("status", "reason", "errored", "error")}) == sn
+                     for o, sn in held)
+    finally:
+        clienting.coring.normalizeHost = saved
+    return (esc, [(st, er, b) for (st, er), b in zip(resps, bodies)], stable)
+
+
 def run_client_seq(streams, cycles=None, same=()):
     """the real Client over a SEQUENCE of connections: connection k delivers the reads streams[k] and then closes; the
     connector is reconnectable and virtual time advances one second per service pass, so the client reconnects (and
@@ -1215,6 +1287,8 @@ def mutate_bytes(rng, data, k=None):
 #                                                     decoded by clienting.Respondent
 #   ("srv",  kind, ((data, cuts, close), ...))        Server (wsgi) / BareServer service loop, one entry per connection
 #   ("cli",  data, cuts, close, scheme)               Client service loop on response bytes (redirects are re-sent)
+#   ("clih", (wire, ...), cuts)                       several responses on ONE Client; every object handed out (response entries,
+#                                                     body, headers, data, events) is held and compared again at the end
 #   ("clid", data, cuts, eof_same)                    Client.service under a delivery schedule: the reads, and the end of stream
 #                                                     either one pass after the last read or in the same receive pass
 #   ("clir", data, cuts)                              the same with a reconnectable connector: the far side closes, virtual
@@ -1292,6 +1366,8 @@ def case_data(case):
         return enc_wire(case[1], case[2], case[3], case[4], case[6] if len(case) > 6 else ())[0]
     if k in ("cli", "clir", "clid"):
         return case[1]
+    if k == "clih":
+        return b"".join(case[1])
     if k == "pack":
         from hio.core.http import httping
         return b"".join(bytes(httping.packChunk(bytearray(p) if i % 2 else p)) for i, p in enumerate(case[1])) + bytes(httping.packChunk(b""))
@@ -1301,7 +1377,7 @@ def case_data(case):
 
 
 def case_cuts(case):
-    ix = {"req": 2, "resp": 3, "sse": 2, "sses": 2, "sser": 4, "chunks": 2, "enc": 5, "cli": 2, "clir": 2, "clid": 2, "pack": 2, "wsgi": 2}.get(case[0])
+    ix = {"req": 2, "resp": 3, "sse": 2, "sses": 2, "sser": 4, "chunks": 2, "enc": 5, "cli": 2, "clir": 2, "clid": 2, "clih": 2, "pack": 2, "wsgi": 2}.get(case[0])
     return case[ix] if ix is not None else None
 
 
@@ -1371,6 +1447,9 @@ def run_case(case):
         return (run_client(split_at(case[1], case[2]), case[3], scheme=case[4]),)
     if k == "clir":
         return (run_client(split_at(case[1], case[2]), True, reconnect=True),)
+    if k == "clih":     # ("clih", (wire, ...), cuts): several responses on one Client, everything handed out is held and re-read
+        d = b"".join(case[1])
+        return (run_client_hold(split_at(d, case[2]), len(case[1])),)
     if k == "clid":     # any delivery schedule incl. the timing of the end of stream vs the plain one
         return (run_client(split_at(case[1], case[2]), "same" if case[3] else True, redirectable=False, bodies=True),
                 run_client([case[1]], True, redirectable=False, bodies=True))
@@ -1417,6 +1496,8 @@ def request_of(case):
         return ("cli", split_at(case[1], case[2]), True)
     if k == "clid":
         return ("cli", split_at(case[1], case[2]), True)
+    if k == "clih":
+        return ("cli", split_at(b"".join(case[1]), case[2]), True)
     raise ValueError(f"bad case kind {k!r}")
 
 
@@ -1443,7 +1524,7 @@ def view_of(case, obs):
                     out.append((n, o))
             return (multi[0], out)
         return (multi[0],)
-    if k in ("cli", "clir", "clid"):
+    if k in ("cli", "clir", "clid", "clih"):
         return (obs[0][0],)
     if k in ("rebind", "inter"):
         return k
@@ -1546,6 +1627,13 @@ def _shrink_case(case):
                 yield (k, ps[:i] + (ps[i][:-1],) + ps[i + 1:], ())
             if len(ps[i]) > 1:
                 yield (k, ps[:i] + (ps[i][:len(ps[i]) // 2],) + ps[i + 1:], ())
+    elif k == "clih":
+        _, ws, cuts = case
+        if cuts:
+            yield (k, ws, ())
+        for i in range(len(ws)):
+            if len(ws) > 1:
+                yield (k, ws[:i] + ws[i + 1:], ())
     elif k == "rebind":
         _, side, steps = case
         for i in range(len(steps)):
